@@ -28,6 +28,7 @@ import XotModel.Lemmas.FStack
 import XotModel.Lemmas.Scope10
 import XotModel.Lemmas.TraceInv
 import XotModel.Lemmas.RepairDoc
+import XotModel.Lemmas.RepairFuel
 
 namespace XotModel.Props
 open XotModel
@@ -599,6 +600,87 @@ example :
           (t'.at? [0, 4]).map Tree.nsDecls, namesWritable env t [0], namesWritable env' t' [0])
       | _ => (0, none, none, none, none)) =
     (8, some [(0, 3), (6, 2), (7, 3)], some [(0, 0)], some false, some true) := by decide
+
+/-! ### The `n{counter}` loop cannot run out: the call never panics -/
+
+/-- `format!("n{}", counter)` is injective: different counters give different prefix strings. -/
+theorem C10_generated_prefix_injective (a b : Nat) (h : generatedPrefixName a = generatedPrefixName b) :
+    a = b :=
+  generatedPrefixName_inj h
+
+/-- The loop `loop { p = add_prefix("n{counter}"); counter += 1; if !used.contains(p) { break } }`
+    ends within `used.length + 1` iterations — the fuel the model gives it — for EVERY interning
+    table (duplicate entries included), counter and `used` set: each iteration that does not break
+    names a different member of `used` (pigeonhole over the injective decimal spellings). -/
+theorem C10_repair_fuel_suffices (used : List Nat) (env : Env) (counter : Nat) :
+    ∃ env1 p counter1, freshPrefix used (used.length + 1) env counter = some (env1, p, counter1) := by
+  have h := freshPrefix_fuel used env counter
+  cases hf : freshPrefix used (used.length + 1) env counter with
+  | none => rw [hf] at h; cases h
+  | some r => exact ⟨r.1, r.2.1, r.2.2, rfl⟩
+
+/-- NEVER PANICS, and exactly when the call fails: for every tree, every interning table (no
+    hypothesis at all) and every existing node, `create_missing_prefixes` answers
+    `Err(NotElement)` on a node that is neither document nor element, `Err(NoElementAtTopLevel)` on a
+    document without element child, and `Ok` in every other case — the panic outcomes of the model
+    (`pushed.pop().unwrap()`, the fuel of the `n{counter}` loop) are unreachable. -/
+theorem C10_repair_never_panics (env : Env) (t : Tree) (path : Path) (node : Tree)
+    (hat : t.at? path = some node) :
+    createMissingPrefixes env t path ≠ .panic ∧
+    (node.value.isDocument = false → node.value.isElement = false →
+      createMissingPrefixes env t path = .err .notElement) ∧
+    (node.value.isDocument = true → elementKidIndices node.kids = [] →
+      createMissingPrefixes env t path = .err .noElementAtTopLevel) ∧
+    ((node.value.isElement = true ∨
+        (node.value.isDocument = true ∧ elementKidIndices node.kids ≠ [])) →
+      ∃ env' t', createMissingPrefixes env t path = .ok (env', t')) := by
+  obtain ⟨h1, h2, h3⟩ := createMissingPrefixes_total env t path node hat
+  refine ⟨?_, h1, h2, h3⟩
+  cases hd : node.value.isDocument with
+  | false =>
+    cases he : node.value.isElement with
+    | false => rw [h1 hd he]; exact fun h => by cases h
+    | true => obtain ⟨e, t', h⟩ := h3 (Or.inl he); rw [h]; exact fun h => by cases h
+  | true =>
+    by_cases hk : elementKidIndices node.kids = []
+    · rw [h2 hd hk]; exact fun h => by cases h
+    · obtain ⟨e, t', h⟩ := h3 (Or.inr ⟨hd, hk⟩); rw [h]; exact fun h => by cases h
+
+/-- The element theorems without "for a call that returns Ok": on an element of a tree whose
+    elements declare no prefix twice the call SUCCEEDS, changes namespace nodes only, makes every
+    name of the subtree writable, and is the identity when repeated. -/
+theorem C10_repair_total (env : Env) (hok : EnvOk env) (t : Tree) (path : Path) (name : Nat)
+    (ks : List Tree) (hat : t.at? path = some (.node (.element name) ks))
+    (hu : UniqueBelow (.node (.element name) ks)) :
+    ∃ env' t', createMissingPrefixes env t path = .ok (env', t') ∧
+      stripNs t' = stripNs t ∧ env'.names = env.names ∧ env'.namespaces = env.namespaces ∧
+      namesWritable env' t' path = some true ∧
+      createMissingPrefixes env' t' path = .ok (env', t') := by
+  obtain ⟨env', t', h⟩ := (createMissingPrefixes_total env t path _ hat).2.2 (Or.inl rfl)
+  obtain ⟨f1, f2, f3⟩ := C10_repair_frame env hok t path name ks hat hu env' t' h
+  exact ⟨env', t', h, f1, f2, f3, C10_repair_writable env hok t path name ks hat hu env' t' h,
+    C10_repair_idem env hok t path name ks hat hu env' t' h⟩
+
+/-- The same for a document or fragment with at least one element child. -/
+theorem C10_repair_document_total (env : Env) (hok : EnvOk env) (t : Tree) (path : Path) (doc : Tree)
+    (hat : t.at? path = some doc) (hdoc : doc.value.isDocument = true)
+    (hel : elementKidIndices doc.kids ≠ [])
+    (hu : ∀ (i : Nat) (k : Tree), doc.kids[i]? = some k → k.value.isElement = true → UniqueBelow k) :
+    ∃ env' t', createMissingPrefixes env t path = .ok (env', t') ∧
+      stripNs t' = stripNs t ∧ env'.names = env.names ∧ env'.namespaces = env.namespaces ∧
+      createMissingPrefixes env' t' path = .ok (env', t') := by
+  obtain ⟨env', t', h⟩ := (createMissingPrefixes_total env t path _ hat).2.2 (Or.inr ⟨hdoc, hel⟩)
+  obtain ⟨f1, f2, f3, _⟩ := C10_repair_document_frame env hok t path doc hat hdoc hu env' t' h
+  exact ⟨env', t', h, f1, f2, f3, C10_repair_document_idem env hok t path doc hat hdoc hu env' t' h⟩
+
+/-- Non-vacuity of the pigeonhole: every candidate `n0`, `n1`, `n2` is registered (ids 2, 4, 3) and
+    used; the loop registers `n3` (id 5) at the fourth iteration — the last the fuel allows. -/
+example : (freshPrefix [2, 3, 4] 4 ⟨[], [[], ['x'], ['n','0'], ['n','2'], ['n','1']], []⟩ 0).map
+      (fun r => (r.1.prefixes, r.2)) =
+    some ([[], ['x'], ['n','0'], ['n','2'], ['n','1'], ['n','3']], 5, 4) := by decide
+example : createMissingPrefixes ⟨[], [], []⟩ (.node (.text ['x']) []) [] = .err .notElement := rfl
+example : createMissingPrefixes ⟨[], [], []⟩ (.node .document [.node (.text ['x']) []]) [] =
+    .err .noElementAtTopLevel := rfl
 
 end Repair
 
